@@ -21,7 +21,7 @@ MCCat ==
        [] c = "img" -> Img(40, {"b1"}, None)
        [] c = "idx" -> Idx(41, {<<"img", "image">>})
        [] c = "idy" -> Idx(44, {<<"img", "other">>})      \* child declared under an opaque type
-       [] c = "sub" -> Img(42, {"b2"}, "img")
+       [] c = "sub" -> Img(42, {"b1", "b2"}, "img")
        [] c = "bad" -> [size |-> 43, bytes |-> <<343>>, as |-> [image |-> NoView, index |-> NoView]]]
 MCPos == [r |-> [x \in Repos |-> IF x = "r1" THEN 2 ELSE 4],
           t |-> [x \in Tags |-> IF x = "t1" THEN 2 ELSE 4],
